@@ -91,6 +91,10 @@ def _cases(tier, seed):
             for dt in ('float64', 'complex128'):
                 cs.append({'scen': 'tt_conj_clone', 's': {'op': op, 'N': N, 'R': R, 'dtype': dt}})
                 cs.append({'scen': 'tt_conj_clone', 's': {'op': op, 'N': N, 'R': R, 'M': [n % 2 + 1 for n in N], 'dtype': dt}})
+    # the same object more than once among the operands of cat
+    for Ns, Rs, dim, rep in [([[2, 3], [2, 3]], [[1, 2, 1], [1, 1, 1]], 0, [0, 0]), ([[2, 3], [2, 3]], [[1, 2, 1], [1, 1, 1]], 1, [0, 1, 0]), ([[3], [3]], [[1, 1], [1, 1]], 0, [1, 0, 0]),
+                             ([[2, 2, 2], [2, 2, 2]], [[1, 2, 2, 1], [1, 1, 2, 1]], -1, [0, 0])]:
+        cs.append({'scen': 'tt_cat', 's': {'Ns': Ns, 'Rs': Rs, 'dim': dim, 'dtype': 'float64', 'repeat': rep}})
     return cs
 
 
